@@ -392,6 +392,12 @@ func TestVerifC07(t *testing.T) {
 				for _, ttl := range []string{"", "100000h"} {
 					paramsR = append(paramsR, c07Params{Policies: ps, NoDefault: nd, TTL: ttl})
 				}
+				if !nd {
+					// the request's own explicit maximum, below and above the one a role may set (15m)
+					for _, em := range []string{"5m", "40m"} {
+						paramsR = append(paramsR, c07Params{Policies: ps, TTL: "100000h", ExplMax: em})
+					}
+				}
 			}
 		}
 		for _, r := range roles {
@@ -454,6 +460,9 @@ func TestVerifC07(t *testing.T) {
 					}
 					if r.period > 0 && m.ttl > r.period+2 {
 						fail("ttl-exceeds-role-period", fmt.Sprintf("ttl %v exceeds the role's period %v", m.ttl, r.period))
+					}
+					if lerr == nil && m.explMax > 0 && m.ttl > m.explMax+2 {
+						fail("ttl-exceeds-explicit-max", fmt.Sprintf("ttl %v exceeds the explicit maximum the token itself reports (%v)", m.ttl, m.explMax))
 					}
 					if r.explMax > 0 && m.ttl > r.explMax+2 {
 						fail("ttl-exceeds-role-explicit-max", fmt.Sprintf("ttl %v > %v", m.ttl, r.explMax))
